@@ -137,6 +137,8 @@ def cres(f, call):
     except Hang:
         HUNG.append(1)
         return "(Err ERuntime)", "no-return"
+    except Exception as e:  # noqa: BLE001 - any other exception: the model has no such outcome, the case will disagree
+        return "(Err EOther)", type(e).__name__
     return f"(Ok {f(v)})", "ok"
 
 
@@ -169,7 +171,7 @@ def shadow_densify(coords, res):
     (exact: bool, expected: list of Fraction points or None)."""
     ok = True
     out = [(F(coords[0][0]), F(coords[0][1]))] if coords else []
-    d2, e = fexact("*", res, res)
+    d2, e = fexact("*", res, res) if abs(res) < 1e150 else (math.inf, True)   # a huge resolution: every edge is short
     ok &= e
     for p1, p2 in zip(coords[:-1], coords[1:]):
         dx, e1 = fexact("-", p1[0], p2[0])
@@ -551,7 +553,7 @@ def gen_cases(out, tier):
         add("densify-free:" + kind, f"CDensify {cpts(coords)} {cq(F(res))} {t}", (coords, res))
     # malformed / boundary: non-positive resolution, empty list, single vertex
     for coords in ([], [[1.0, 2.0]], [[0.0, 0.0], [3.0, 4.0]], [[0.0, 0.0], [0.0, 0.0]]):
-        for res in (1.0, 5.0, 0.0, -1.0, -0.0, 2.0 ** -20, 2.0 ** 30):
+        for res in (1.0, 5.0, 0.0, -1.0, -0.0, 2.0 ** -20, 2.0 ** 30) + HUGE:
             if res > 0 and not shadow_densify([tuple(p) for p in coords], res)[0]:
                 escapes += 1
                 continue
@@ -568,11 +570,16 @@ def gen_cases(out, tier):
         g, res = gen_geom(rng)
         if rng.random() < 0.1 and not HUNG:
             res = rng.choice([0.0, -2.0])
+        elif rng.random() < 0.08:
+            res = rng.choice(HUGE)
         if res > 0 and not shadow_geom(g, res):
             escapes += 1
             continue
-        if res > 0 and sum(len(s) for s in seqs(real_segmented(g, res))) > 600:
-            continue
+        try:
+            if res > 0 and sum(len(s) for s in seqs(real_segmented(g, res))) > 600:
+                continue
+        except Exception:  # noqa: BLE001 - recorded by the case itself just below
+            pass
         t, kind = cres(cgeom, lambda: with_timeout(15, lambda: real_segmented(g, res)))
         for k in set(gkinds(g)):
             out.count("segmented-kind:" + k)
@@ -647,7 +654,7 @@ def gen_cases(out, tier):
             r_eff = None
         else:
             g, r0 = geom_in(base, rng)
-            res = rng.choice([None, None, r0, r0, 2 * r0, float("inf"), float("nan"), 0.0, -r0])
+            res = rng.choice([None, None, r0, r0, 2 * r0, float("inf"), float("nan"), 0.0, -r0] + list(HUGE[i % 2::2]))
             r_eff = res if (res is not None and math.isfinite(res) and res > 0) else None
         if r_eff is not None and not shadow_geom(g, r_eff):
             escapes += 1
@@ -661,6 +668,12 @@ def gen_cases(out, tier):
         G0 = Geometry(to_shapely(g), src)
         try:
             got = with_timeout(25, lambda: G0.to_crs(dst, resolution=res, wrapdateline=wrap, check_and_fix=cf))
+        except (Hang, ArithmeticError, TypeError, IndexError, AssertionError) as e:
+            # no such outcome in the model: the case disagrees and is then judged by the predicate
+            add("to_crs:" + type(e).__name__, f"CToCrs {copt(cls.get(src))} {cgeom(g)} {copt(cls.get(dst))} {cresolution(res)} "
+                f"{cbool(wrap)} {cbool(cf)} {cbool(geo)} true [] (Err EOther)", (src, g, dst, str(res)),
+                pred=("to_crs", src, g, dst, res, wrap, cf))
+            continue
         except ValueError:
             add("to_crs:ValueError", f"CToCrs {copt(cls.get(src))} {cgeom(g)} {copt(cls.get(dst))} {cresolution(res)} "
                 f"{cbool(wrap)} {cbool(cf)} {cbool(geo)} true [] (Err EValue)", (src, g, dst, str(res)),
@@ -909,6 +922,9 @@ def p_tocrs(src, g, dst, res, wrap=False, cf=False):
     return True, "ok"
 
 
+HUGE = (1e150, 1e200, 1e308, 1.7976931348623157e308)    # finite, but the square overflows (repair e4c938b)
+
+
 RES_KINDS = ["int", "float", "np.float64", "np.float32", "np.float16", "np.int64", "np.int32",
              "0d-float64", "0d-float32", "0d-int64"]
 
@@ -955,6 +971,39 @@ def p_many_crs(n, salt, lonlat):
             del G0, got, back
         gc.collect()
     return True, f"{2 * n} conversions there and back agree with pyproj"
+
+
+def p_pickled(src, g, dst, res, z=None):
+    """alternative entry point: a geometry that travelled through pickle (dask worker, cache) is the same geometry
+    (kind, structure, every coordinate incl. Z, CRS) and converts exactly like the original (repair 454889d:
+    GeometryCollections could not be pickled, Z was dropped)"""
+    import pickle
+
+    from odc.geo.geom import Geometry
+
+    shp = to_shapely(g)
+    if z is not None and not verts(g):
+        z = None
+    if z is not None:                      # a 3-D line / point through all vertices
+        from shapely import geometry as sg
+        pts3 = [(p[0], p[1], float(z) + i) for i, p in enumerate(verts(g))]
+        shp = sg.LineString(pts3) if len(pts3) > 1 else sg.Point(pts3[0])
+    G0 = Geometry(shp, src)
+    G1 = pickle.loads(pickle.dumps(G0))
+    if G1.geom.geom_type != shp.geom_type or G1.geom.has_z != shp.has_z or G1.crs != G0.crs:
+        return False, f"unpickled: {G1.geom.geom_type} has_z={G1.geom.has_z} crs={G1.crs}; original {shp.geom_type} has_z={shp.has_z}"
+    if z is not None:
+        ok = list(G1.geom.coords) == list(shp.coords)
+        return ok, f"unpickled 3-D coordinates {list(G1.geom.coords)[:3]}"
+    # reference: shapely's own pickling of the bare shape (WKB based: a LinearRing nested in a collection comes back
+    # as a LineString - shapely's behaviour, not the wrapper's)
+    ref_shape = pickle.loads(pickle.dumps(shp))
+    if from_shapely(G1.geom) != from_shapely(ref_shape):
+        return False, f"unpickled geometry differs from the pickled bare shape: {core.short(from_shapely(G1.geom), 200)}"
+    a = Geometry(ref_shape, src).to_crs(dst, resolution=res)
+    b = G1.to_crs(dst, resolution=res)
+    same = from_shapely(a.geom) == from_shapely(b.geom) and a.crs == b.crs
+    return same, "to_crs of the unpickled geometry " + ("equals" if same else "differs from") + " to_crs of the original"
 
 
 def p_roundtrip(src, g, dst):
@@ -1218,7 +1267,7 @@ def gen_antimeridian(rng, src, side):
 
 PREDICATES = {"transformer": p_transformer, "densify": p_densify, "segmented": p_segmented, "retain": p_retain, "nonpositive": p_nonpositive,
               "to_crs": p_tocrs, "roundtrip": p_roundtrip, "wrapdateline": p_wrap, "wrapdateline+resolution": p_wrap_res,
-              "history": p_history, "many_crs": p_many_crs}
+              "history": p_history, "many_crs": p_many_crs, "pickled": p_pickled}
 PREDICATES["after_history"] = crshist.after_history(PREDICATES)
 
 
@@ -1276,6 +1325,13 @@ def search(out, tier, first=()):
             run("segmented", g, res)
             if i % 4 == 0:
                 run("to_crs", "EPSG:3857", g, rng.choice(["EPSG:4326", "EPSG:3035"]), res, rng.random() < 0.5)
+    # huge finite resolutions (their square overflows): nothing is longer than that, the geometry stays as it is
+    for i in range(24 if tier == "quick" else 200):
+        g, _ = gen_geom(rng)
+        run("segmented", g, HUGE[i % len(HUGE)])
+        if i % 3 == 0:
+            coords, _ = gen_polyline(rng)
+            run("densify", coords, HUGE[(i // 3) % len(HUGE)])
     # arbitrary floats: retention only
     for _ in range(200 if tier == "quick" else 3000):
         coords = [[rng.uniform(-1e3, 1e3), rng.uniform(-1e3, 1e3)] for _ in range(rng.randint(1, 5))]
@@ -1296,9 +1352,12 @@ def search(out, tier, first=()):
                 g = [t, jig(g[1])]
             elif t in ("MultiPoint", "Line"):
                 g = [t, [jig(p) for p in g[1]]]
-        res = rng.choice([None, None, r0, "auto", float("inf"), 0.0]) if rng.random() < 0.6 else None
+        res = rng.choice([None, None, r0, "auto", float("inf"), 0.0, HUGE[i % len(HUGE)]]) if rng.random() < 0.6 else None
         # option combinations: the whole alphabet lives in central Europe, where wrapdateline must not change anything
         run("to_crs", src, g, dst, res, rng.random() < 0.4)
+        if src and dst and i % 6 == 0:
+            run("pickled", src, g, dst, res if isinstance(res, float) and math.isfinite(res) and res > 0 else None,
+                1.5 if i % 12 == 0 else None)
         if src and dst and tier != "quick" or (src and dst and i % 5 == 0):
             run("roundtrip", src, g, dst)
     # wrapdateline=True to a geographic CRS: near (both sides) and across the antimeridian
@@ -1414,7 +1473,13 @@ def run(out, tier, scratch):
         "CRS.__eq__ decides 'already in the target CRS' (oracle; property C19)",
         "exact rational model of binary64 coordinates (inputs restricted to an exactness domain; escapes are discarded and counted)",
     ]
-    cases, preds = gen_cases(out, tier)
+    try:
+        cases, preds = gen_cases(out, tier)
+    except Exception:  # noqa: BLE001 - the implementation raised where the generator did not expect it: still search
+        import traceback
+        out.oblige("harness:case generation", "correspondence", False, traceback.format_exc())
+        search(out, tier)
+        return
     fails, log = core.coq_eval_failures(["Base.Result", "Model.Densify", "Model.DensifyCases"], "case", "check", cases,
                                         scratch, shard=60)
     detail = ""
